@@ -24,7 +24,7 @@ REPO = os.environ.get("VERIF_REPO", "/repo")
 GO126 = os.environ.get("VERIF_GO126", "go1.26.8")
 NCPU = os.cpu_count() or 4
 
-RACE_PROPS = {"C04", "C14", "C19", "C16", "C11", "C10"}
+RACE_PROPS = {"C04", "C14", "C19", "C16", "C11", "C10", "C18"}
 
 # quick-tier number of runs per property (plain binary); thorough is time based
 QUICK_RUNS = {
